@@ -105,13 +105,14 @@ def _work(job):
         und = [g for g in groups.values() if g["result"] == "unknown" and g["kind"] != "cover"]
         if und and kind == "fn":
             try:
-                rp_ = try_replay(e, mod, target, kind, None, seed)
+                rp_ = try_replay(e, mod, target, kind, None, seed, oids=[g["oid"] for g in und])
             except Exception as ex:  # noqa: BLE001
                 rp_ = {"status": "error", "detail": f"{type(ex).__name__}: {ex}"}
             if rp_.get("status") == "confirmed":
-                und[0]["result"] = "refuted"
-                und[0]["reason"] = "solver undecided; failing input found by small-scope search of the real function"
-                und[0]["replay"] = rp_
+                hit = next((g for g in und if g["oid"] == rp_.get("for_oid")), und[0])
+                hit["result"] = "refuted"
+                hit["reason"] = "solver undecided; failing input reproduced natively (witness schema / small-scope search)"
+                hit["replay"] = rp_
         out["obligations"] = list(groups.values())
         out["assumed"] = dict(e.assumed_calls)
         out["info"] = dict(e.fn_info.get(target, {}))
@@ -124,7 +125,7 @@ def _work(job):
     return out
 
 
-def try_replay(e, mod, target, kind, ob, seed):
+def try_replay(e, mod, target, kind, ob, seed, oids=None):
     """Find a concrete input on which the real function violates its contract.
 
     1. the solver's counter-model (re-solved with bounded containers so it can be materialised);
@@ -136,15 +137,17 @@ def try_replay(e, mod, target, kind, ob, seed):
     from pyvc.enumerate import Scope
     res = {"status": "none", "attempts": []}
     witness = getattr(mod, "WITNESS", {})
+    cand_oids = [ob.oid] if ob is not None else list(oids or [])
     for key, fn in witness.items():
-        if ob is not None and key in ob.oid:
+        hit_oid = next((o_ for o_ in cand_oids if key in o_), None)
+        if hit_oid is not None:
             try:
                 w = fn()
             except Exception as ex:  # noqa: BLE001
                 w = {"fails": False, "detail": f"witness crashed: {type(ex).__name__}: {ex}"}
             res["attempts"].append({"via": "witness-schema", **{k: v for k, v in w.items() if k != "fails"}})
             if w.get("fails"):
-                res.update(status="confirmed", via="witness-schema", detail=w)
+                res.update(status="confirmed", via="witness-schema", detail=w, for_oid=hit_oid)
                 return res
     if kind != "fn":
         return res
